@@ -27,6 +27,8 @@ fn main() {
       install_quiet_panic_hook();
       let mut s = sess::Sess::new();
       for src in &args[2..] {
+        // "@step" re-runs the whole plan once (the REPL's step command) and prints the symbols
+        if src == "@step" { let r = guarded(|| s.intrp.step(0, 1).map(|_| ())); println!("@step => {:?}\n  symbols: {}", r.map(|x| x.map_err(|e| e.kind_name())), sess::show_snapshot(&s.snapshot())); continue; }
         let r = s.eval(src);
         println!("{:?} => {}   arm={}", src, r.show(), s.last_arm());
       }
